@@ -90,6 +90,10 @@ impl Client {
     pub fn close(&mut self, ms: u64) -> (bool, bool) {
         self.tx = None;
         let t0 = Instant::now();
+        // Two debuggers must never be alive in one process (each reaps children with waitpid(-1)): on a loaded machine
+        // the session thread may need much longer than `ms` to kill and reap its debuggee, so wait for it generously;
+        // only a thread that is still running after two minutes is reported as not finished.
+        let ms = ms.max(120_000);
         if let Some(h) = self.handle.take() {
             while !h.is_finished() && t0.elapsed() < Duration::from_millis(ms) {
                 std::thread::sleep(Duration::from_millis(5));
